@@ -18,7 +18,7 @@ from . import groups
 
 class Rig:
     def __init__(self, loop, case, kind="slow", al_delay=None, latency=None,
-                 fault=None, on_frame=None, on_response=None):
+                 fault=None, on_frame=None, on_response=None, table=None):
         self.loop = loop
         self.kind = kind
         self.case = case
@@ -42,7 +42,11 @@ class Rig:
             t.fmmu_used = [None] * 4
         self.registered = []
         self.unregistered = []
-        if kind == "fast":
+        if kind == "fast" and table is not None:
+            # the real FastEtherCat.register_sync_group on a program table
+            # (a PROG_ARRAY map of the bpf stand-in the caller has set up)
+            self.ec.programs = table
+        elif kind == "fast":
             rig = self
 
             from contextlib import contextmanager
